@@ -68,7 +68,7 @@ func runStoreForward(c *sim.RunCtx, o *storeRunOpts) *storeWorld {
 			m: &storeModel{cfg: cfg, objs: objs, byTag: map[int]*upload{}}}
 		w.allocs = func() int {
 			if e.alloc == nil {
-				return 0 // (W-config: allocation counts are not needed by this property's oracles)
+				return e.collectorAllocations()
 			}
 			return e.alloc.Allocs
 		}
